@@ -46,17 +46,27 @@ impl DelayNs for Delay {
 #[derive(Clone)]
 pub struct Iv {
     pub waits: Rc<Cell<u32>>,
+    /// what pulling the NRESET line does to the chip double (None: nothing, as the stateless checks use it)
+    pub on_reset: Rc<RefCell<Option<Rc<dyn Fn()>>>>,
 }
 pub const IRQ_WAIT_BUDGET: u32 = 16;
 
 impl Iv {
     pub fn new() -> Self {
-        Iv { waits: Rc::new(Cell::new(0)) }
+        Iv { waits: Rc::new(Cell::new(0)), on_reset: Rc::new(RefCell::new(None)) }
+    }
+    /// connects the reset line to a chip double
+    pub fn wire_reset(&self, f: Rc<dyn Fn()>) {
+        *self.on_reset.borrow_mut() = Some(f);
     }
 }
 
 impl InterfaceVariant for Iv {
     async fn reset(&mut self, _delay: &mut impl DelayNs) -> Result<(), RadioError> {
+        let f = self.on_reset.borrow().clone();
+        if let Some(f) = f {
+            f();
+        }
         Ok(())
     }
     async fn wait_on_busy(&mut self) -> Result<(), RadioError> {
@@ -88,6 +98,49 @@ impl embedded_hal::spi::Error for SpiErr {
     fn kind(&self) -> embedded_hal::spi::ErrorKind {
         match *self {}
     }
+}
+
+/// Which command put the chip on the air.
+#[derive(Debug, Clone, Copy, PartialEq, Eq)]
+pub enum AirKind {
+    Tx,
+    Rx,
+    Cad,
+    TxCw,
+}
+
+/// The configuration a chip double HOLDS, as far as the PHY properties decode it. On the command-driven
+/// chips (SX126x, LR11xx) a field is `None` when it has not been programmed since the last power-on /
+/// reset / wake-up from a sleep without retention: the chip is then back in its power-on state (GFSK
+/// packet engine, no documented RF frequency / LoRa parameters), which is nobody's request. On the
+/// register-driven SX127x the fields are the register contents, i.e. the documented reset values after NRESET.
+#[derive(Debug, Clone, Default, PartialEq)]
+pub struct Held {
+    /// LoRa packet engine selected (SX126x/LR11xx SetPacketType(LoRa); SX127x LongRangeMode bit)
+    pub lora_mode: bool,
+    /// SetRfFrequency word (SX126x: PLL steps; LR11xx: Hz) / RegFrf (all three bytes written)
+    pub freq_word: Option<u32>,
+    /// raw LoRa SetModulationParams arguments SF, BW, CR, LDRO (SX126x, LR11xx)
+    pub modp: Option<[u8; 4]>,
+    /// raw LowDataRateOptimize byte / bit
+    pub ldro: Option<u8>,
+    pub pkt_implicit: Option<bool>,
+    pub pkt_len: Option<u8>,
+    /// SX126x SetPaConfig / SetTxParams arguments
+    pub pa126: Option<[u8; 4]>,
+    pub txp126: Option<[u8; 2]>,
+    /// SX127x (RegPaConfig, RegPaDac), both written
+    pub pa127: Option<(u8, u8)>,
+    /// decoded symbol-count timeouts in effect: (where, symbols)
+    pub symb: Vec<(&'static str, u32)>,
+}
+
+/// The held configuration at the moment SetTx / SetRx / SetCad / SetTxContinuousWave (SX127x: RegOpMode
+/// TX / RXSINGLE / RXCONTINUOUS / CAD) was commanded.
+#[derive(Debug, Clone, PartialEq)]
+pub struct Air {
+    pub kind: AirKind,
+    pub held: Held,
 }
 
 /// A chip model executes one NSS-low..NSS-high exchange: `mosi[i]` is clocked in while `miso[i]`
